@@ -110,6 +110,9 @@ func BuildSyncTreeOrGetRemote(ctx context.Context, id string, deps BuildDeps) (t
 }
 
 func PutSyncTree(ctx context.Context, payload treestorage.TreeStorageCreatePayload, deps BuildDeps) (t SyncTree, err error) {
+	if payload.RootRawChange == nil {
+		return nil, objecttree.ErrEmptyChange
+	}
 	err = checkTreeDeleted(ctx, payload.RootRawChange.Id, deps.SpaceStorage)
 	if err != nil {
 		return
